@@ -26,6 +26,7 @@ type Env struct {
 	vars map[string]Val
 	cur  *State
 	old  *State
+	now  *State // inside old(...): the state now() evaluates in
 	pkg  string
 	pure bool // inside a define: no state access
 	qdepth int // >0 inside a (non-unrolled) quantifier
@@ -932,6 +933,18 @@ func (e *Env) call(x *SCall) Val {
 		}
 		ne := *e
 		ne.cur = e.old
+		if ne.now == nil {
+			ne.now = e.cur
+		}
+		return ne.rvalue(ne.eval(x.Args[0]))
+	case "now":
+		// inside old(...): this operand is evaluated in the current state after all
+		if e.now == nil {
+			return e.rvalue(e.eval(x.Args[0]))
+		}
+		ne := *e
+		ne.cur = e.now
+		ne.now = nil
 		return ne.rvalue(ne.eval(x.Args[0]))
 	case "len", "cap":
 		v := e.eval(x.Args[0])
